@@ -753,6 +753,9 @@ class Name:
                         out += label.lower()
                     else:
                         out += label
+                if len(out) > 255:
+                    # the name only reaches its full length with the origin appended
+                    raise NameTooLong
             return bytes(out)
 
         labels: Iterable[bytes]
